@@ -794,13 +794,30 @@ def _task_hash(self):
     return _o_task_hash(self)
 
 
+from topsim.core.machine import Machine as _Machine
+_o_machine_hash = _Machine.__hash__
+
+
+def _machine_hash(self):
+    m = _HASHMAP["map"]
+    if m is not None:
+        h = m.get("M:%s" % self.id)
+        if h is not None:
+            return h
+    return _o_machine_hash(self)
+
+
 def set_hash_order(mapping):
-    """mapping: {"<obs>:<node>": small int} or None to restore."""
+    """mapping: {"<obs>:<node>": small int, "M:<machine id>": small int}
+    or None to restore.  Objects hashed by a string id (Task, Machine) are
+    the only way the interpreter's hash seed can reach a simulation."""
     _HASHMAP["map"] = mapping
     if mapping is None:
         Task.__hash__ = _o_task_hash
+        _Machine.__hash__ = _o_machine_hash
     else:
         Task.__hash__ = _task_hash
+        _Machine.__hash__ = _machine_hash
 
 
 # --------------------------------------------------------------------------
